@@ -39,6 +39,7 @@ SPECIAL_TITLES = [
     "t-shirt xl", "wi-fi router", "e-mail", "micro biology", "night light", "power-bank usb", "3d printer 4k", "usb2 hub", "no.5 chanel",
     "500ml bottle 12v 1kg", "Größe XL", "Süße Grüße", "Élégant cœur", "Bäckerstraße 5",
     "daddy puppy mummy", "sense tests sensors", "bell bela pikk", "radar level civic",
+    "ps 4 console", "mp-3 player", "ab c", "a bc def", "electroencephalographic otorhinolaryngological kit", "Fried rice", "Dairy farm",
 ]
 
 
@@ -46,6 +47,12 @@ def lang_titles(lang):
     if lang in ("en", "none"):
         return None  # corpus
     return WORDS["titles"][lang]
+
+
+def upper_title(t, rnd):
+    """ALL CAPS as a shop would write it; the sharp s either stays or becomes its capital form"""
+    keep = rnd.random() < 0.5
+    return "".join(("\u1e9e" if not keep else ch) if ch == "\u00df" else ch.upper() for ch in t)
 
 
 def pool_titles(lang, rnd, n):
@@ -104,6 +111,47 @@ class Case:
         self.ops.append(kw)
 
 
+def via_registry(c):
+    """the same case asked through the top-level API (create_store / add_record / set_limit / set_markers / run_search)
+    with a stand-alone store driven in lock-step as the specification's view of the records: the properties speak of
+    what a user of the library gets, and lib.rs is the way most users reach a store"""
+    d = Case(c.ops[0]["prop"], c.ops[0]["kind"] + "+api", **{k: v for k, v in c.ops[0].items() if k not in ("op", "prop", "kind")})
+    for op in c.ops[1:]:
+        o = op.get("op")
+        if o in ("new", "add", "limit", "markers", "clear"):
+            twin = dict(op)
+            twin["sid"] = 1000 + op["sid"]
+            if o == "new":
+                d.op(op="r_create", id=op["sid"], lang=op["lang"])
+            elif o == "add":
+                d.op(op="r_add", id=op["sid"], rid=op["id"], title=op["title"], rating=op["rating"])
+            elif o == "limit":
+                d.op(op="r_limit", id=op["sid"], limit=op["limit"])
+            elif o == "markers":
+                d.op(op="r_markers", id=op["sid"], l=op["l"], r=op["r"])
+            else:
+                d.op(op="r_clear", id=op["sid"])
+            d.ops.append(twin)
+        elif o == "search":
+            d.search(1000 + op["sid"], op["q"], tag="sa%d" % op["sid"], want=["qtok"], rep=1)
+            d.op(op="r_search", id=op["sid"], q=op["q"], **({"expect": op["expect"]} if "expect" in op else {}))
+        else:
+            return None          # a case with steps the top-level API does not have
+    return d
+
+
+def relimit_probe(c, sid, q, rnd):
+    """the same query was asked a moment ago under a much smaller limit (the limit is a public field that callers change
+    between searches); the limit the case was built with is put back before the judged search"""
+    cur = 10
+    for o in c.ops:
+        if o.get("op") == "limit" and o.get("sid") == sid:
+            cur = o["limit"]
+    c.op(op="limit", sid=sid, limit=rnd.choice([0, 1]))
+    c.search(sid, q, rep=1)
+    c.op(op="limit", sid=sid, limit=cur)
+
+
 def distinct_ratings(rnd, n, hi=1000):
     return rnd.sample(range(0, max(hi, n + 1)), n)
 
@@ -139,14 +187,25 @@ def small_store_case(prop, kind, lang, rnd, titles, target_title, extra=None):
     if rnd.random() < 0.12:
         # a store of many copies of the same title (more records than the index has distinct grams)
         others = [target_title] * rnd.randint(7, 14)
+    crowd = prop != "C05" and rnd.random() < 0.1
+    if crowd:
+        # a crowd: more records than the default limit, all sharing the target's first and last words (so every one of
+        # them matches what finds the target), under a limit raised to the size of the store
+        ws = [w for w in target_title.split(" ") if w]
+        fill = [w for t in titles[:40] for w in t.split(" ") if w] or ["x"]
+        others = [" ".join([ws[0], rnd.choice(fill)] + ([ws[-1]] if len(ws) > 1 else [])) for _ in range(rnd.randint(10, 22))] if ws else others
     recs = others[:]
     pos = rnd.randint(0, len(recs))
     recs.insert(pos, target_title)
     n = len(recs)
-    limit = rnd.choice([n, n, n + 1, 10, 10, n + 5])
+    limit = rnd.choice([n, n, n + 1, 10, 10, n + 5]) if not crowd else rnd.choice([n, n + 1, n + 5])
+    if limit < n:
+        limit = n
     c = Case(prop, kind, lang=lang)
     sid = c.new_store(lang, limit=limit)
     ratings = distinct_ratings(rnd, n) if rnd.random() < 0.7 else [rnd.randint(0, 3) for _ in range(n)]
+    if crowd and rnd.random() < 0.6:
+        ratings[pos] = 0                        # the target is the least popular of the crowd
     for i, t in enumerate(recs):
         c.add(sid, 100 + i, t, ratings[i])
     return c, sid, 100 + pos
@@ -177,9 +236,12 @@ def gen_prefix_cases(lang, rnd, titles, toks, ncases, prop="C03"):
             add_op["id"] = rid = 900
             c.ops.append(add_op)
             c.search(sid, p0, expect=dict(prop="C03", kind="prefix", rid=rid, widx=wi0 + 1))
+        probe = rnd.random() < 0.2
         for wi, w in enumerate(words_of(tok)):
             for n in range(1, len(w) + 1):
                 q = w[:n]
+                if probe and rnd.random() < 0.3:
+                    relimit_probe(c, sid, q, rnd)
                 c.search(sid, q, expect=dict(prop="C03", kind="prefix", rid=rid, widx=wi + 1))
             # the same prefixes typed as in the original title (source spelling, e.g. upper case, accents)
             ws = tok["words"][wi]
@@ -225,9 +287,28 @@ def gen_edit_cases(lang, rnd, titles, toks, ncases, per_pos=2):
         if not ws:
             continue
         c, sid, rid = small_store_case("C04", "edit", lang, rnd, titles, t)
-        for wi, w in ws:
-            for kind, v in edits_of(w, letters, rnd, per_pos):
-                c.search(sid, v, expect=dict(prop="C04", kind=kind, rid=rid, widx=wi + 1))
+        edits = [(wi, kind, v) for wi, w in ws for kind, v in edits_of(w, letters, rnd, per_pos)]
+        if rnd.random() < 0.35 and edits:
+            # the misspelling is a product of its own: records whose titles contain some of the typed spellings verbatim
+            # (they overlap the query far better than the target does), the limit raised with the store
+            k = min(len(edits), rnd.randint(1, 4))
+            if rnd.random() < 0.6:
+                # preferably the spellings that leave the target the smallest share of the query's grams: that is where a
+                # competitor's overlap dwarfs the target's
+                gr = lambda w: {tuple(w[:1]), tuple(w[:2])} | {tuple(w[i:i + 3]) for i in range(len(w) - 2)}
+                wmap = dict(ws)
+                order = sorted(edits, key=lambda e: (len(gr(e[2]) & gr(wmap[e[0]])) / float(len(gr(e[2]))), rnd.random()))
+                chosen = order[:k]
+            else:
+                chosen = rnd.sample(edits, k)
+            for j, (wi, kind, v) in enumerate(chosen):
+                c.add(sid, 700 + j, text(v) + " " + rnd.choice(titles).split(" ")[0], rnd.randint(0, 1000))
+            c.op(op="limit", sid=sid, limit=sum(1 for o in c.ops if o.get("op") == "add") + rnd.choice([0, 1, 5]))
+        probe = rnd.random() < 0.25
+        for wi, kind, v in edits:
+            if probe and rnd.random() < 0.3:
+                relimit_probe(c, sid, v, rnd)
+            c.search(sid, v, expect=dict(prop="C04", kind=kind, rid=rid, widx=wi + 1))
         cases.append(c)
     return cases
 
@@ -248,6 +329,8 @@ def gen_whole_pair_cases(lang, rnd, titles, toks, ncases):
             c.search(sid, t, rep=1)
             add_op["id"] = rid = 900
             c.ops.append(add_op)
+        if rnd.random() < 0.15:
+            relimit_probe(c, sid, cps(t), rnd)
         c.search(sid, t, expect=dict(prop="C13", kind="whole", rid=rid))
         ws = words_of(tok)
         if len(ws) >= 2:
@@ -678,12 +761,15 @@ def gen_ranking_cases(lang, rnd, ncases):
             letters = [ch for ch in script_letters(lang) if ch not in f]
             content = f + rand_word(rnd, letters, 2, 5)
             other = rand_word(rnd, letters, 4, 7)
-            for tb in (f + " " + other, other + " " + f):
+            for tb0 in (f + " " + other, other + " " + f):
                 for ra, rb in [(0, RMAX), (RMAX, 0), (7, 7)]:
                     for order in (0, 1):
                         c = Case("C08", "function", lang=lang)
                         sid = c.new_store(lang)
-                        recs = [(1, content, ra), (2, tb, rb)]
+                        # titles as shops write them: lower case, Capitalised or ALL CAPS (the title still contains f itself)
+                        style = rnd.choice([0, 0, 1, 2])
+                        tb = tb0 if style == 0 else (" ".join(w[:1].upper() + w[1:] for w in tb0.split(" ")) if style == 1 else upper_title(tb0, rnd))
+                        recs = [(1, content if style != 2 else rnd.choice([content, upper_title(content, rnd)]), ra), (2, tb, rb)]
                         if order:
                             recs.reverse()
                         for rid, tt, rr in recs:
@@ -754,6 +840,19 @@ def gen_variant_cases(lang, rnd, titles, toks, ncases):
                 base = base[:rnd.randint(1, len(base))]
             if rnd.random() < 0.3:
                 base = base.upper() if len(base.upper()) == len(base) else base
+            r0 = rnd.random()
+            if r0 < 0.2:
+                # a title word typed as two words (the matcher joins them again) ...
+                bw = base.split(" ")
+                k = rnd.randrange(len(bw))
+                if len(bw[k]) >= 3:
+                    i = rnd.randrange(1, len(bw[k]))
+                    bw[k] = bw[k][:i] + " " + bw[k][i:]
+                    base = " ".join(bw)
+            elif r0 < 0.3 and " " in base:
+                # ... or two title words typed as one
+                i = base.index(" ")
+                base = base[:i] + base[i + 1:]
             if rnd.random() < 0.5:
                 # a mistyped base query: the answer then depends on the cost (class) of single characters
                 bw = base.split(" ")
@@ -986,6 +1085,49 @@ def gen_tok_cases(rnd, tier, pools):
                                                 rnd.randint(0x10000, 0x1F9FF)])) for _ in range(rnd.randint(1, 12)))
                 c.op(op="tok", lang=lang, text=cps(s), kind=rnd.choice(["q", "r"]))
             cases.append(c)
+    return cases
+
+
+_STRATA = None
+
+
+def unicode_strata():
+    """letters, marks and digits of the Basic Multilingual Plane and the first supplementary planes, grouped by
+    (64-code-point page, general category): the tokeniser classifies characters by hand-written lists, so every corner
+    of the letter/digit space is a place where a list can be wrong"""
+    global _STRATA
+    if _STRATA is None:
+        import unicodedata
+        st = {}
+        for cp in list(range(0x80, 0xD800)) + list(range(0xE000, 0x20000)):
+            cat = unicodedata.category(chr(cp))
+            if cat[0] in "LN" or cat in ("Mn", "Mc", "Pd", "Pc", "Sk"):
+                st.setdefault((cp >> 6, cat), []).append(cp)
+        _STRATA = st
+    return _STRATA
+
+
+def gen_unicode_sweep(rnd, tier):
+    """C15: one or two members of every (page, category) stratum, inside a word, at its ends and alone, in both tokenisers"""
+    st = unicode_strata()
+    picks = []
+    for (page, cat), members in sorted(st.items()):
+        homogeneous = cat in ("Lo", "Ll", "Lu") and len(members) > 24
+        k = (1 if homogeneous else 2) if tier == "quick" else (4 if homogeneous else 40)
+        if cat in ("Lm", "Lt", "Pd", "Pc"):
+            k = 64                        # modifier and title-case letters, dashes and connectors: every one, every run
+        if tier == "quick" and homogeneous and page >= (0x3400 >> 6) and rnd.random() < 0.75:
+            continue                      # ideographs and syllables: a quarter of the pages per run
+        picks += rnd.sample(members, min(k, len(members)))
+    cases = []
+    langs = list(LANGS)
+    for i in range(0, len(picks), 400):
+        lang = langs[(i // 400) % len(langs)]
+        c = Case("C15", "unicode-sweep", lang=lang)
+        for cp in picks[i:i + 400]:
+            c.op(op="tok", lang=lang, text=[97, cp, 98], kind="q")
+            c.op(op="tok", lang=lang, text=[cp, 97, 32, 98, cp], kind="r")
+        cases.append(c)
     return cases
 
 
